@@ -100,8 +100,9 @@ Fixpoint parse_pairs (cs : list N) : option (list N) :=
   | _ => None
   end.
 
-(* from_hexdigest on an ASCII string (non-ASCII strings are outside the model: the Rust slices
-   the &str at byte offsets, which panics off a char boundary) *)
+(* from_hexdigest on the BYTES of the string: 64 bytes, each pair a hex byte.  A string that is not
+   ASCII holds a byte >= 128, which is no hex digit, so the result is None - as in the Rust since
+   a22f7bf (before it, the byte-offset slicing of the &str panicked off a character boundary). *)
 Definition from_hexdigest (cs : list N) : option state :=
   if N.of_nat (length cs) =? 2 * SETSUM_BYTES then
     match parse_pairs cs with Some d => Some (from_digest d) | None => None end
